@@ -288,19 +288,11 @@ func canReachAvoidingHead(a, b, head ssa.Instruction) bool {
 
 func c07b(c *Ctx) {
 	fn := c.Fn("parser.FontConfig.FormatText")
-	lf := c.Fn("parser.FontConfig.shouldUseLineFeed")
-	if fn == nil || lf == nil {
+	if fn == nil {
 		return
 	}
-	// lemma: shouldUseLineFeed(cur, n) == (n-1 <= cur)
-	{
-		rets := returnsOf(lf)
-		got := ""
-		if len(rets) == 1 {
-			got = c.term(lf, rets[0].Results[0])
-		}
-		c.Check(got == "($2-1 <= $1)", "shouldUseLineFeed/definition", c.W.FuncPos(lf), "line feed from the last line of the box on: curLineNum >= numLines-1", "shouldUseLineFeed returns "+got+", expected curLineNum >= numLines-1")
-	}
+	// (a "use line feed" helper, if there is one, is expanded into its definition by the path
+	// conditions, so both sites test the line number against numLines in the same form)
 	// the two sites
 	var cur string
 	nSites := 0
@@ -314,9 +306,6 @@ func c07b(c *Ctx) {
 		var lit string
 		for _, l := range must {
 			if strings.HasSuffix(l, "+1 < $5)") && strings.Contains(l, "phi(") {
-				lit = l
-			}
-			if strings.Contains(l, "shouldUseLineFeed($0,") {
 				lit = l
 			}
 		}
@@ -333,11 +322,6 @@ func c07b(c *Ctx) {
 			// (cur < n-1): '+' means not yet on the last line
 			scroll = lit[0] == '-'
 			cur = strings.TrimSuffix(strings.TrimPrefix(lit[1:], "("), "+1 < $5)")
-		default:
-			scroll = lit[0] == '+'
-			if !strings.HasSuffix(lit, ",$5)") {
-				c.Bad(key, pos, "shouldUseLineFeed is not called with (curLineNum, numLines)")
-			}
 		}
 		want := `\n`
 		if scroll {
